@@ -23,7 +23,7 @@ import z3  # noqa: E402
 from pyvc.loader import Repo  # noqa: E402
 from pyvc.spec import Registry, parse_expr  # noqa: E402
 from pyvc.symex import Unsupported, SpecError, Obligation  # noqa: E402
-from pyvc.verify import Verifier, discharge, Result, to_smt2, discharge_smt2, run_cvc5_text  # noqa: E402
+from pyvc.verify import Verifier, discharge, Result, to_smt2, to_smt2_ground, discharge_smt2, run_cvc5_text  # noqa: E402
 import specs  # noqa: E402
 
 EVIDENCE_DIR = os.path.join(HERE, "evidence")
@@ -77,7 +77,7 @@ def verify_one(target):
         for o in obls:
             text = to_smt2(o, bg)
             item = dict(name=o.name, kind=o.kind, line=o.line, smt2=text, path=o.extra.get("path"), note=o.extra.get("note"),
-                        goal=o.goal.sexpr()[:1500], size=len(text), excl={})
+                        goal=o.goal.sexpr()[:1500], size=len(text), excl={}, ground=to_smt2_ground(o))
             for f in v.finding_specs:
                 if f.get("kind") and f["kind"] != o.kind:
                     continue
@@ -104,7 +104,16 @@ def discharge_one(item):
     """worker, phase 2: one obligation"""
     tier, seed = _G["tier"], _G["seed"]
     timeout = 10000 if tier == "quick" else 60000
-    r = discharge_smt2(item["name"], item["kind"], item["line"], item["smt2"], timeout_ms=timeout, seed=seed)
+    r = None
+    if item.get("ground"):
+        # first attempt on the quantifier-free weakening (fewer assumptions: a proof there is a proof of the obligation);
+        # it keeps the ground obligations away from the quantified background axioms, where z3 tends to wander
+        rg = discharge_smt2(item["name"], item["kind"], item["line"], item["ground"], timeout_ms=2000, use_cvc5=False, seed=seed)
+        if rg.status == "proved":
+            rg.backend = "z3 (quantifier-free weakening)"
+            r = rg
+    if r is None:
+        r = discharge_smt2(item["name"], item["kind"], item["line"], item["smt2"], timeout_ms=timeout, seed=seed)
     d = r.to_json()
     d["size"] = item["size"]
     if r.status != "proved":
